@@ -40,6 +40,9 @@ type History struct {
 	Ops  []Op   `json:"ops"`
 	// Float: coordinates are not on the integer grid (Op.F carries the fractional parts)
 	Float bool `json:"float,omitempty"`
+	// Probe (C12 only): every delete is followed by a battery of k = 1 queries from points around the object that was
+	// just removed (the place where a box that was not shrunk after the delete would mislead the pruning)
+	Probe bool `json:"probe,omitempty"`
 }
 
 // custom comparable object
